@@ -11,6 +11,7 @@ from hxv.ref import heikin, resample as rr
 from hxv.runner import Shard
 
 PROP = "C11"
+FUZZ = {"shards": ["any", "EMA"], "procs_per_shard": 2, "runs": 60000, "seconds": 300}
 RULE = (
     "case = (indicator config, timeframe none/collapsing, fill, stream, preload 0/1/2/k, append chunks, standalone or "
     "Hexital with one extra timeframe); oracles = (1) reference HA recurrence over the raw (reference-resampled) candles, "
